@@ -116,14 +116,34 @@ int hxw_gettimeofday(struct timeval *tv, void *tz) {
  * descriptor the library does not hold is not performed (it would hit whoever owns that number now) and is counted. */
 #include <unistd.h>
 __thread int hxa_bad_close = 0, hxa_fds_open = 0;
-static unsigned char hxa_fd_owned[4096];      /* shared by threads on purpose: descriptor numbers are process-wide */
+static unsigned char hxa_fd_owned[4096];      /* shared by threads on purpose: descriptor numbers are process-wide; value = owner tag */
+static int hxa_next_tag = 0;
+static __thread unsigned char hxa_my_tag = 0;
+static unsigned char my_tag(void) {
+    if (!hxa_my_tag) hxa_my_tag = (unsigned char) (1 + (__atomic_fetch_add(&hxa_next_tag, 1, __ATOMIC_RELAXED) % 250));
+    return hxa_my_tag;
+}
 int hxw_mkstemp(char *tmpl) {
     int fd = mkstemp(tmpl);
-    if (fd >= 0 && fd < (int) sizeof hxa_fd_owned) { __atomic_store_n(&hxa_fd_owned[fd], 1, __ATOMIC_RELAXED); hxa_fds_open++; }
+    if (fd >= 0 && fd < (int) sizeof hxa_fd_owned) { __atomic_store_n(&hxa_fd_owned[fd], my_tag(), __ATOMIC_RELAXED); hxa_fds_open++; }
     return fd;
 }
 int hxw_close(int fd) {
-    if (fd >= 0 && fd < (int) sizeof hxa_fd_owned && __atomic_exchange_n(&hxa_fd_owned[fd], 0, __ATOMIC_RELAXED)) { hxa_fds_open--; return close(fd); }
+    /* (a close from another thread than the opener would be a cross-connection close as well: connections are thread-confined) */
+    if (fd >= 0 && fd < (int) sizeof hxa_fd_owned && __atomic_load_n(&hxa_fd_owned[fd], __ATOMIC_RELAXED) == my_tag()) {
+        __atomic_store_n(&hxa_fd_owned[fd], 0, __ATOMIC_RELAXED);
+        hxa_fds_open--;
+        return close(fd);
+    }
     hxa_bad_close++;
     return -1;
+}
+/* harness-side clean-up of a descriptor this thread's library calls left open (so that long runs do not run out of descriptors) */
+int hxw_release_fd(int fd) {
+    if (fd >= 0 && fd < (int) sizeof hxa_fd_owned && __atomic_load_n(&hxa_fd_owned[fd], __ATOMIC_RELAXED) == my_tag()) {
+        __atomic_store_n(&hxa_fd_owned[fd], 0, __ATOMIC_RELAXED);
+        close(fd);
+        return 1;
+    }
+    return 0;
 }
